@@ -69,6 +69,7 @@ class MinimizeRecorder:
     def __init__(self):
         self.calls = []
         self.other = 0
+        self.aborted = False
 
     def __enter__(self):
         import lmfit
@@ -87,6 +88,10 @@ class MinimizeRecorder:
                 out = rec._orig(*args, **kwargs)
                 # parameter values as returned by the optimiser (before the caller edits them)
                 rec.calls[-1]["result"] = {k: v.value for k, v in out.params.items()}
+                # lmfit 1.3.4: a fit aborted by max_nfev returns optimiser-internal leftovers that are not
+                # reproducible for identical input (measured); differential oracles must skip such fits
+                rec.calls[-1]["aborted"] = bool(getattr(out, "aborted", False))
+                rec.aborted = rec.aborted or rec.calls[-1]["aborted"]
                 return out
             rec.other += 1
             return rec._orig(*args, **kwargs)
